@@ -149,9 +149,7 @@ def obligations(tier, seed):
         Ob(oid="codepoint/classes", harness=P + "h_codepoint", params={"max_cp": 0x110000 if tier == "thorough" else 0x10000},
            vars={"C": "int"}, timeout=900, per_path=120, pre="every code point (no surrogates)"),
     ]
-    if tier == "thorough":
-        for shard in range(16):
-            obs.append(Ob(oid=f"byte/injective/{shard}", harness=P + "h_injective", params={"shard": shard}, vars={"X": "int", "Y": "int"}, timeout=3000, twin=(shard == 0)))
+    # injectivity of decode follows from the round trip (encode(decode(b)) == b for all 256 b), so no separate obligation
     win = [(0x20, 0x80), (0xA0, 0x100), (0x400, 0x460), (0x2500, 0x2520), (0x2660, 0x2668)]
     for fixed, nm in (("A", "enc"), ("é", "unenc"), ("ю", "cyr")):
         for pos in (0, 1):
